@@ -643,7 +643,7 @@ func main() {
 	phase("setup")
 	sequential(r, engR, srvT, srvP)
 	phase("sequential")
-	reps := r.N(1, 3)
+	reps := r.N(1, 2)
 	for rep := 0; rep < reps; rep++ {
 		verifhook.SetPerturb(true, uint64(r.Seed)*7919+uint64(rep))
 		concurrent(r, srvT, rep)
@@ -719,7 +719,7 @@ func sequential(r *core.Run, engR *core.Eng, srvT, srvP *core.Srv) {
 		return
 	}
 	defer t.close()
-	n := r.N(300, 4000)
+	n := r.N(150, 1500)
 	sideK := 0
 	r.Parallel("sequential", 1, func(int) {
 		for i := 0; i < n; i++ {
@@ -813,7 +813,7 @@ func runTriple(r *core.Run, t *triple, st stmt, i int) (connLost bool) {
 
 func concurrent(r *core.Run, srv *core.Srv, rep int) {
 	type tier struct{ clients, stmts int }
-	tiers := []tier{{1, r.N(15, 100)}, {8, r.N(60, 400)}, {32, r.N(10, 120)}}
+	tiers := []tier{{1, r.N(8, 30)}, {8, r.N(25, 120)}, {32, r.N(4, 30)}}
 	for ti, t := range tiers {
 		var wg sync.WaitGroup
 		var seq atomic.Int64
